@@ -73,6 +73,7 @@ type Ctx struct {
 	idx      int
 	seen     map[string]bool
 	skips    map[string]bool
+	dump     *os.File
 }
 
 func NewCtx(prop, tier string, shard, nshards int, seed int64, fs *findings.Set, progressPath string, budget time.Duration) *Ctx {
@@ -84,6 +85,9 @@ func NewCtx(prop, tier string, shard, nshards int, seed int64, fs *findings.Set,
 		c.progress, _ = os.Create(progressPath)
 	}
 	c.seen = map[string]bool{}
+	if d := os.Getenv("VERIF_DUMP"); d != "" {
+		c.dump, _ = os.OpenFile(fmt.Sprintf("%s.%d", d, shard), os.O_CREATE|os.O_APPEND|os.O_WRONLY, 0o644)
+	}
 	return c
 }
 
@@ -191,6 +195,10 @@ func (c *Ctx) Fail(f Failure) {
 		return
 	}
 	c.Rep.ViolCount++
+	if c.dump != nil {
+		b, _ := json.Marshal(map[string]any{"prop": f.Prop, "symptom": f.Symptom, "detail": f.Detail, "case": f.Case, "scenario": f.Scenario, "sched": f.Sched, "features": f.Features})
+		c.dump.Write(append(b, '\n'))
+	}
 	// keep few, but keep diverse symptoms
 	n := 0
 	for _, v := range c.Rep.Viol {
